@@ -6,7 +6,7 @@ sys.path.insert(0, os.path.dirname(os.path.dirname(os.path.abspath(__file__))))
 import coqreplay as _coqreplay
 
 PROP = {
-    "coq": ["C02", "Findings", "C02s"],
+    "coq": ["C02", "Findings", "C02s", "C02t"],
     "pre": [regen_src],
     "extra": [_coqreplay.replay_cc, replay_src({'explen'})],
     "exhaustive": False,
@@ -18,7 +18,7 @@ PROP = {
     "assumptions": ["the scripted connection delivers the scripted bytes in order and reports a deadline error once they are used up"],
 }
 CLAIM = {
-  "text": "Source level (C02s): the RTU length-inference table expectedResponseLenth (all 2^16 inputs) and mapExceptionCodeToError (all 256 codes) are translated from the Go source on every run (harness/cmd/gosrc -> Gen/SrcPure.v) and proved equal to the model by complete sweeps through the GoLite semantics. Coq theorems over the client model, for EVERY request and EVERY byte stream the peer may send (both framings): soundness (success only if the stream contains, at a frame boundary after skippable frames (MBAP) / at its start (RTU), a well-formed reply answering this very request - unit, function code, byte count, length, echoed fields - and the result is exactly the requested number of values decoded under the configured byte/word order), completeness (every valid reply is accepted whatever follows), exception replies from the addressed unit or unit 255 give the error of their code for all 256 codes, a normal reply from another unit is refused, and no stream causes a panic or a non-terminating receive loop. The model is compared with the real client on valid replies, field-level corruptions, all exception codes, all function codes, truncations, foreign frames and random bytes on every run.",
+  "text": "Source level (C02t): the request construction and reply validation methods of client.go are translated from the Go source on every run and proved, with the transport as an arbitrary oracle, to return what the model's client_request / unit_check / client_validate say (38 theorems; on the model's own MBAP and RTU transports this is client_call). Source level (C02s): the RTU length-inference table expectedResponseLenth (all 2^16 inputs) and mapExceptionCodeToError (all 256 codes) are translated from the Go source on every run (harness/cmd/gosrc -> Gen/SrcPure.v) and proved equal to the model by complete sweeps through the GoLite semantics. Coq theorems over the client model, for EVERY request and EVERY byte stream the peer may send (both framings): soundness (success only if the stream contains, at a frame boundary after skippable frames (MBAP) / at its start (RTU), a well-formed reply answering this very request - unit, function code, byte count, length, echoed fields - and the result is exactly the requested number of values decoded under the configured byte/word order), completeness (every valid reply is accepted whatever follows), exception replies from the addressed unit or unit 255 give the error of their code for all 256 codes, a normal reply from another unit is refused, and no stream causes a panic or a non-terminating receive loop. The model is compared with the real client on valid replies, field-level corruptions, all exception codes, all function codes, truncations, foreign frames and random bytes on every run.",
   "note": "Model follows the tree with fixes F1/F2 applied. Timeouts are untimed here (peer bytes exhausted = deadline error; the timed model is C07). Trusted: kernel, extraction, harness, scripted connection.",
   "technique": "Coq proof over Go source functions translated on every run (GoLite deep embedding) + Coq proof (frame reader characterisation both directions, skip-loop fuel, per-operation validation lemmas) + differential correspondence on scripted replies",
 }
